@@ -147,7 +147,9 @@ def main():
     #    thorough: a seeded 1/60 of the 4096 ordered assignments of 4 windows over 8 curves)
     mc = hvsrobj.cfg_text(1, nw, 6, alpha, "Ranges6", "NSetA", "MaxItsA", "InitSorted" if quick else "InitEnv", export=False,
                           invariants=["TypeOK", "PeaksCurrent", "AccFnHavePeaks"], props=["TdStep", "CurvesFixed"])
-    res, _ = hvsrobj.export_graph(mc, "C05-mc", {"VERIF_K": 60, "VERIF_SEED": run.seed}, timeout=3600)
+    res, _ = hvsrobj.export_graph(mc, "C05-mc", {"VERIF_K": 60, "VERIF_SEED": run.seed}, timeout=3600, coverage=True)
+    from vcommon import require_coverage
+    run.notes["action_coverage"] = require_coverage(res, ["UpdateRange", "TdReject", "ManualReject", "Fdwra"], "C05-mc")
     run.add_tlc(res, "HvsrObject exhaustive (I tier), invariants TypeOK/PeaksCurrent/AccFnHavePeaks/TdStep/CurvesFixed")
     # 1b. the implementation-shaped accessor (estimator over the mask, blind to missing peaks) agrees with the
     #     property iff NoPeaklessAccepted; TLC must find the history that breaks it (non-vacuity of the model)
